@@ -141,6 +141,34 @@ class G:
         self.uses_fail = True
         return dstest_fail() + ["STOP"], "fail()"
 
+    def sibling_tree(self):
+        """if (a_j & 1) { if (a_f == c1) FAIL else ok } else { if (a_f == c2) ok' else ok }  (c1 odd, c2 even).
+
+        The two subtrees look at the same argument; what the subtree explored first learns about it (a_f == c2)
+        must not be visible in its sibling, which is still waiting on the worklist."""
+        r = self.rnd
+        f = r.randrange(self.nargs)
+        j = r.randrange(self.nargs)
+        c1, c2 = r.choice([1, 5, 7, 9, 255]), r.choice([2, 4, 42, 100])
+        self.add(j, 0, 1)
+        self.add(f, c1, c2)
+        lt_outer, lt_in1, lt_in2 = self.label(), self.label(), self.label()
+        code = arg(j) + [("PUSH", 1), "AND", ("PUSHL", lt_outer), "JUMPI"]
+        # else-part (explored first by halmos): a_f == c2 ?
+        self.leaves.add("ok")
+        code += arg(f) + [("PUSH", c2), "EQ", ("PUSHL", lt_in2), "JUMPI", "STOP", ("LABEL", lt_in2)] + (["STOP"] if r.random() < 0.5 else revert_plain())
+        # then-part: a_f == c1 ? panic : ok
+        self.leaves.add("panic1")
+        code += [("LABEL", lt_outer)] + arg(f) + [("PUSH", c1), "EQ", ("PUSHL", lt_in1), "JUMPI", "STOP", ("LABEL", lt_in1)] + panic(1)
+        w = [0] * self.nargs
+        w[j] = 1
+        w[f] = c1
+        self.witnesses.append(tuple(w))
+        w2 = [0] * self.nargs
+        w2[f] = c2
+        self.witnesses.append(tuple(w2))
+        return code, f"if(a{j}&1){{if(a{f}=={c1}) panic(1) else ok}}else{{if(a{f}=={c2}) ok else ok}}"
+
     def tree(self, depth, asg):
         if depth <= 0 or self.rnd.random() < 0.15:
             return self.leaf(asg)
@@ -175,7 +203,10 @@ def gen_test_contract(rnd: random.Random, ntests: int = 4, allow_fail: bool = Fa
         g = G(rnd, nargs, slots, [set([0, 1, M256 - 1]) for _ in range(nargs)], allow_fail=allow_fail)
         if rnd.random() < 0.4:
             g.focus = rnd.randrange(nargs)
-        body, desc = g.tree(rnd.randint(2, 3) if g.focus is not None else rnd.randint(1, 3), {})
+        if rnd.random() < 0.25:
+            body, desc = g.sibling_tree()
+        else:
+            body, desc = g.tree(rnd.randint(2, 3) if g.focus is not None else rnd.randint(1, 3), {})
         sig = f"check_t{t}(" + ",".join(["uint256"] * nargs) + ")"
         fns.append(Fn(sig, body))
         metas.append(TestMeta(sig, nargs, [sorted(s) for s in g.grid], g.witnesses, desc, g.uses_mul, g.uses_div, g.uses_fail, g.leaves))
@@ -194,3 +225,61 @@ def arg_tuples(meta: TestMeta, rnd: random.Random, cap: int = 100) -> list[tuple
         if t not in out:
             out.append(t)
     return out
+
+
+# ---------------------------------------------------------------------------------------------
+# Division and remainder with a *symbolic* divisor (the abstractions halmos refines): templates around
+# the zero divisor, where the EVM defines the result as 0 and SMT-LIB does not.
+
+DIVOPS = ["DIV", "SDIV", "MOD", "SMOD"]
+
+
+def gen_divzero_contract(rnd: random.Random, ops=None, name: str = "DivZeroTest"):
+    """Tests over x = arg0, y = arg1 for each op:
+    nz   if (y == 0) { if (x op y != 0) panic }     can never fail
+    eq5  if (y == 0) { if (x op y == 5) panic }     can never fail
+    z    if (y == 0) { if (x op y == 0) panic }     fails for every x with y = 0
+    r    if (x op y == c) panic                      fails (c chosen reachable with y != 0)
+    """
+    setup = [("PUSH", 1), ("PUSH", 0), "SSTORE", "STOP"]
+    fns = [Fn("setUp()", setup)]
+    metas = []
+    lid = [0]
+
+    def lab():
+        lid[0] += 1
+        return f"dz{lid[0]}"
+
+    def xopy(op):
+        return arg(1) + arg(0) + [op]  # stack: x (top), y -> x op y
+
+    for op in ops or DIVOPS:
+        c = rnd.choice([1, 2, 5])
+        signed = op.startswith("S")
+        xs = [0, 1, 5, 7, 10, M256 - 1, M256 - 5, 2**255, rnd.getrandbits(256)]
+        ys = [0, 1, 2, 3, 5, 7, M256 - 1, M256 - 2, 2**255]
+        # a tuple reaching the `r` failure: x op y == c with y != 0
+        if op in ("DIV", "SDIV"):
+            wr = (c * 3, 3)
+        else:
+            wr = (c + 7 * 3, 7) if c < 7 else (c, c + 1)
+        variants = {
+            "nz": (True, ["ISZERO", "ISZERO"], [(5, 0), (0, 0), (M256 - 5, 0)], False),
+            "eq5": (True, [("PUSH", 5), "EQ"], [(5, 0), (M256 - 5, 0)], False),
+            "z": (True, ["ISZERO"], [(5, 0), (0, 0)], True),
+            "r": (False, [("PUSH", c), "EQ"], [wr, (c, 0), (0, 0)], True),
+        }
+        for vn, (guard, test, wit, _fails) in variants.items():
+            bad, end = lab(), lab()
+            body = []
+            if guard:
+                body += arg(1) + [("PUSHL", end), "JUMPI"]  # y != 0 -> nothing to check
+            body += xopy(op) + test + [("PUSHL", bad), "JUMPI", ("LABEL", end), "STOP", ("LABEL", bad)] + panic(1)
+            if not guard:
+                body = xopy(op) + test + [("PUSHL", bad), "JUMPI", "STOP", ("LABEL", bad)] + panic(1)
+            sig = f"check_{op.lower()}_{vn}(uint256,uint256)"
+            fns.append(Fn(sig, body))
+            desc = (f"if(a1==0){{if((a0 {op} a1) {test}) panic}}" if guard else f"if((a0 {op} a1)=={c}) panic")
+            metas.append(TestMeta(sig, 2, [sorted(set(xs + [w[0] for w in wit])), sorted(set(ys + [w[1] for w in wit]))], list(wit), desc,
+                                  uses_div=True, leaves={"panic1", "ok"}))
+    return Contract(name, fns), metas
